@@ -4,17 +4,22 @@ from ..common import Violation
 
 
 def confs(tier, seed, loops_k=None, directed_k=None, undirected_k=None, flavours=(0, 1, 2)):
-    """the universes of DESIGN.md §5/C12"""
-    fls = list(flavours) if tier == 'thorough' else [flavours[0], flavours[1:][seed % len(flavours[1:])]] if len(flavours) > 1 else list(flavours)
+    """the universes of DESIGN.md §5/C12.  quick: flavour 0 over 4 instants (-2..1), the two other flavours over 3 instants
+    with one timed interaction less (the seed selects which of them gets the larger bound); thorough: everything larger"""
     out = []
-    for fl in fls:
-        if tier == 'quick':
-            out.append(graphs.gconf('DynGraph', fl, 3, 3, undirected_k or 5))
-            out.append(graphs.gconf('DynDiGraph', fl, 3, 3, directed_k or (4 if fl else 5)))
-            if loops_k:
-                out.append(graphs.gconf('DynGraph', fl, 3, 3, loops_k, loops=True))
-                out.append(graphs.gconf('DynDiGraph', fl, 3, 3, loops_k, loops=True))
-        else:
+    if tier == 'quick':
+        out.append(graphs.gconf('DynGraph', 0, 3, 4, undirected_k or 5))
+        out.append(graphs.gconf('DynDiGraph', 0, 3, 4, directed_k or 4))
+        if loops_k:
+            out.append(graphs.gconf('DynGraph', 0, 3, 3, loops_k, loops=True))
+            out.append(graphs.gconf('DynDiGraph', 0, 3, 3, loops_k, loops=True))
+        others = [f for f in flavours if f != 0]
+        for idx, fl in enumerate(others):
+            bonus = 1 if others and idx == seed % len(others) else 0
+            out.append(graphs.gconf('DynGraph', fl, 3, 3, 3 + bonus))
+            out.append(graphs.gconf('DynDiGraph', fl, 3, 3, 3 + bonus))
+    else:
+        for fl in flavours:
             out.append(graphs.gconf('DynGraph', fl, 3, 4, 12))
             out.append(graphs.gconf('DynGraph', fl, 4, 4, undirected_k or 5))
             out.append(graphs.gconf('DynDiGraph', fl, 3, 4, directed_k or 5))
